@@ -248,6 +248,20 @@ def rule_S_PLAIN_EFF(ctx, repo):
         ctx.ob('S-EFF', 'cache.%s effects %s' % (name, sorted(seen)), seen <= allow)
 
 
+def _keys_not_reinterpreted(ctx, m, fi, rule):
+    """each positional argument of load / dump is one key: the *args tuple is never re-bound (e.g. to its own first element "when a list or tuple of keys
+    is given") - the keys the keymaps produce are themselves tuples, so the wrappers' dump(key) / load(key) would be taken for a collection of keys"""
+    va = fi.node.args.vararg.arg
+    hits = [n for n in ast.walk(fi.node) if isinstance(n, ast.Name) and n.id == va and isinstance(n.ctx, ast.Store)]
+    ctx.ob(rule, 'cache.%s: each positional argument is one key (*%s is not re-bound)' % (fi.name, va), not hits)
+    for n in hits:
+        ctx.fail(rule, fi.qual, '*%s re-bound' % va,
+                 'cache.%s re-binds its *%s (line %d): a single argument that is itself a list / tuple is then taken for a collection of keys.  The keys produced by '
+                 'klepto.keymaps.keymap() are tuples, and the wrappers call cache.%s(key) with exactly one argument: the elements of the key are transferred instead '
+                 'of the entry - an evicted result never reaches the archive, an archived one is never loaded' % (fi.name, va, n.lineno, fi.name),
+                 '%s:%d' % (m.rel, n.lineno))
+
+
 def rule_S_LOAD_DUMP(ctx, repo):
     m, ci = cache_class(repo)
     # ---------------- load
@@ -257,6 +271,7 @@ def rule_S_LOAD_DUMP(ctx, repo):
     if not a.vararg:
         raise AnalysisError('cache.load does not take *args')
     ARGS = ('param', a.vararg.arg)
+    _keys_not_reinterpreted(ctx, m, fi, 'S-LOAD')
     n_bulk = n_key = 0
     swallowed = False
     for o in outs:
@@ -315,6 +330,7 @@ def rule_S_LOAD_DUMP(ctx, repo):
     if not a.vararg:
         raise AnalysisError('cache.dump does not take *args')
     ARGS = ('param', a.vararg.arg)
+    _keys_not_reinterpreted(ctx, m, fi, 'S-DUMP')
     n_bulk = n_key = 0
     for o in outs:
         evs = o.st.events
